@@ -57,7 +57,21 @@ func ExtractTypeNameMap(v interface{}) (map[string]reflect.Type, map[string]stri
 	value := reflect.ValueOf(v)
 	typMap := make(map[string]reflect.Type)
 	nameMap := make(map[string]string)
-	seen := make(map[uintptr]bool) // containers already walked (cyclic values)
+	// containers already walked (cyclic values); two slices of different length or type over one
+	// array are two containers
+	type walked struct {
+		addr   uintptr
+		length int
+		typ    reflect.Type
+	}
+	seen := make(map[walked]bool)
+	key := func(v reflect.Value) walked {
+		k := walked{addr: v.Pointer(), typ: v.Type()}
+		if v.Kind() == reflect.Slice {
+			k.length = v.Len()
+		}
+		return k
+	}
 	ExtractValue(value, func(v reflect.Value) bool {
 		if !v.IsValid() {
 			return false
@@ -72,14 +86,14 @@ func ExtractTypeNameMap(v interface{}) (map[string]reflect.Type, map[string]stri
 		if _, ok := typMap[name]; ok {
 			// a type is entered once; only a container whose elements are interfaces is
 			// walked again, because what those hold differs from value to value
-			if (typ.Kind() != reflect.Slice && typ.Kind() != reflect.Map) || !holdsInterface(typ) || v.IsNil() || seen[v.Pointer()] {
+			if (typ.Kind() != reflect.Slice && typ.Kind() != reflect.Map) || !holdsInterface(typ) || v.IsNil() || seen[key(v)] {
 				return false
 			}
-			seen[v.Pointer()] = true
+			seen[key(v)] = true
 			return true
 		}
 		if (typ.Kind() == reflect.Slice || typ.Kind() == reflect.Map) && !v.IsNil() {
-			seen[v.Pointer()] = true
+			seen[key(v)] = true
 		}
 
 		typMap[name] = typ
